@@ -138,6 +138,12 @@ func VerifC01FlagOverride() {
 	verifReset(in)
 	defer verifReset(in)
 	doc := strings.Replace(verifDoc("m7"), "  bpm: 90\n", "  bpm: 90\n  key: G\n  meter: 3/4\n  velocity: ff\n", 1)
+	// the piece may also open with a rest that carries the settings (the flags replace the
+	// first instance's settings whatever that instance is)
+	firstIsRest := vf.NondetIntRange("first-is-a-rest", 0, 1) == 1
+	if firstIsRest {
+		doc = "- values:\n    - \"1\"\n  bpm: 90\n  key: G\n  meter: 3/4\n  velocity: ff\n" + strings.Replace(doc, "  bpm: 90\n  key: G\n  meter: 3/4\n  velocity: ff\n", "", 1)
+	}
 	os.WriteFile(in, []byte(doc), 0o644)
 	var args []string
 	keyC := vf.NondetIntRange("key", 0, 2)
@@ -163,7 +169,7 @@ func VerifC01FlagOverride() {
 	vf.Assert("flags-parse", writeCmd.ParseFlags(args) == nil && writeCmdParse.ParseFlags(nil) == nil)
 	base, berr := newWriteCmdArgs(writeCmdParse, []string{in})
 	got, err := newWriteCmdArgs(writeCmd, []string{in})
-	vf.Assert("documents-load", err == nil && berr == nil && got != nil && base != nil && len(got.instances) == 3)
+	vf.Assert("documents-load", err == nil && berr == nil && got != nil && base != nil && len(got.instances) == len(base.instances) && len(got.instances) >= 3)
 	if err != nil || berr != nil {
 		return
 	}
@@ -187,7 +193,11 @@ func VerifC01FlagOverride() {
 	vf.Assert("bpm-flag-replaces-first-instance-bpm", effBPM == map[string]uint{"90": 90, "150": 150, "100": 100}[bpmV])
 	vf.Assert("meter-flag-replaces-first-instance-meter", effMeter == meterV)
 	vf.Assert("velocity-flag-replaces-first-instance-dynamic", effVel == op.NewDynamicSign(velV))
-	vf.Assert("flags-leave-the-music-alone", f.Chord != nil && b.Chord != nil && f.Chord.Degree == b.Chord.Degree && f.Chord.Base == b.Chord.Base && f.Chord.Chord.Name == b.Chord.Chord.Name && len(f.Values) == len(b.Values))
+	if firstIsRest {
+		vf.Assert("flags-leave-the-music-alone", f.Chord == nil && b.Chord == nil && len(f.Values) == len(b.Values))
+	} else {
+		vf.Assert("flags-leave-the-music-alone", f.Chord != nil && b.Chord != nil && f.Chord.Degree == b.Chord.Degree && f.Chord.Base == b.Chord.Base && f.Chord.Chord.Name == b.Chord.Chord.Name && len(f.Values) == len(b.Values))
+	}
 	rest := append([]op.Instance{}, got.instances[1:]...)
 	vf.Assert("flags-touch-only-the-first-instance", verifSameInstances(rest, base.instances[1:]))
 	vf.Reach("end")
@@ -274,14 +284,14 @@ func VerifC12IOPaths() {
 		if err := textCmdParse.ParseFlags(flags); err != nil {
 			return "", err
 		}
-		oldIn := os.Stdin
 		if useStdin {
-			f, err := os.Open(in)
+			// the text arrives whole, or (a pipe whose producer is slow) in two portions
+			portion := []int{0, 1, len(text) / 2}[vf.NondetIntRange("stdin-first-portion", 0, 2)]
+			restore, err := vf.StdinFrom(in, portion)
 			if err != nil {
 				return "", err
 			}
-			os.Stdin = f
-			defer func() { os.Stdin = oldIn; f.Close() }()
+			defer restore()
 		}
 		printed, err := verifCapture("io-stdout.txt", func() error { return textCmdParse.RunE(textCmdParse, args) })
 		if toFile {
@@ -628,14 +638,13 @@ func VerifC12LongInput() {
 	vf.Assert("flags-parse", textCmdConvSyllable.ParseFlags([]string{"--output", "", "--key", "C"}) == nil)
 	run := func(useStdin bool) (string, error) {
 		args := []string{in}
-		oldIn := os.Stdin
 		if useStdin {
-			f, err := os.Open(in)
+			portion := []int{0, 1, sb.Len() / 2}[vf.NondetIntRange("stdin-first-portion", 0, 2)]
+			restore, err := vf.StdinFrom(in, portion)
 			if err != nil {
 				return "", err
 			}
-			os.Stdin = f
-			defer func() { os.Stdin = oldIn; f.Close() }()
+			defer restore()
 			args = nil
 		}
 		return verifCapture("long-stdout.txt", func() error { return textCmdConvSyllable.RunE(textCmdConvSyllable, args) })
@@ -691,14 +700,13 @@ func VerifC12LongWrite() {
 	vf.Assert("flags-parse", writeCmd.ParseFlags([]string{"--output", out, "--track", "3"}) == nil)
 	run := func(useStdin bool) (string, error) {
 		args := []string{in}
-		oldIn := os.Stdin
 		if useStdin {
-			f, err := os.Open(in)
+			portion := []int{0, 1, sb.Len() / 2}[vf.NondetIntRange("stdin-first-portion", 0, 2)]
+			restore, err := vf.StdinFrom(in, portion)
 			if err != nil {
 				return "", err
 			}
-			os.Stdin = f
-			defer func() { os.Stdin = oldIn; f.Close() }()
+			defer restore()
 			args = []string{"-"}
 		}
 		os.Remove(out)
